@@ -1,5 +1,7 @@
 (* C02 statements over the wake-driven model (ClientWake.v).  Pinned here; proofs in
-   ClientWakeProofs.v.  No proofs in this file. *)
+   ClientWakeProofs.v (dead, quiescent) and ClientWakeMon.v (monitor); the settle-terminates
+   statement is defined in ClientWakeProofs.v and proved in ClientWakeSettles.v.  No proofs in
+   this file. *)
 From Coq Require Import List Bool Arith NArith.
 Import ListNotations.
 From TarpcV Require Import Base Transport Client ClientS ClientWake.
